@@ -5,3 +5,4 @@ import TelProofs.Props.C05
 import TelProofs.Props.C09
 import TelProofs.Props.C01
 import TelProofs.Props.C02
+import TelProofs.Props.C04
